@@ -52,11 +52,36 @@ func genReceipts(r *simrt.Rand, conns int, big bool) []receiptSub {
 		n = []int{130, 140, 200, 300}[r.Intn(4)]
 	}
 	var out []receiptSub
+	var clean []int // indices of unmodified submissions
+	nonce := r.Uint64()
 	for i := 0; i < n; i++ {
-		text := fmt.Sprintf(`{"app_id":"a","client_id":"c%d","session_id":"s","participant_id":%d,"bytes_sent":%d}`, i, i, r.Intn(100000))
+		// (the nonce keeps the receipts of different runs of one worker process apart: whatever
+		// the server keeps process-wide must not couple one run's outcome to another's)
+		text := fmt.Sprintf(`{"app_id":"a","client_id":"c%d","session_id":"s-%x","participant_id":%d,"bytes_sent":%d}`, i, nonce, i, r.Intn(100000))
 		hash := crypto.Keccak256([]byte(text))
 		sig, _ := crypto.Sign(hash, key)
 		s := receiptSub{Conn: r.Intn(conns), Text: text, Hash: hash, Sig: sig}
+		if len(clean) > 0 && r.Bool(0.12) {
+			// a receipt submitted (and, if valid, accepted) before, again: unchanged, or with only
+			// its signature damaged - each submission is judged on its own
+			prev := out[clean[r.Intn(len(clean))]]
+			s.Text, s.Hash, s.Sig = prev.Text, prev.Hash, append([]byte(nil), prev.Sig...)
+			switch r.Intn(4) {
+			case 0:
+				s.Corrupt = "resubmitted"
+			case 1:
+				s.Corrupt = "resub-sig-junk"
+				s.Sig = bytes.Repeat([]byte{0xcd}, 65)
+			case 2:
+				s.Corrupt = "resub-sig-short"
+				s.Sig = s.Sig[:64]
+			default:
+				s.Corrupt = "resub-sig-v"
+				s.Sig[64] = 9
+			}
+			out = append(out, s)
+			continue
+		}
 		switch x := r.Intn(20); {
 		case x == 0:
 			s.Corrupt = "hash-bit"
@@ -104,6 +129,9 @@ func genReceipts(r *simrt.Rand, conns int, big bool) []receiptSub {
 			s.Corrupt = "sig-r-bit"
 			s.Sig = append([]byte(nil), sig...)
 			s.Sig[r.Intn(32)] ^= 1
+		}
+		if s.Corrupt == "" {
+			clean = append(clean, len(out))
 		}
 		out = append(out, s)
 	}
